@@ -38,7 +38,7 @@ RULE = ("three kinds of cases: (w) random manifest contents through writeManifes
 ASSUMPTIONS = ["format-version strings contain no ':'",
                "at most one temp manifest exists at a time in generated schedules (real temp names are random, their listing order is not modelled)",
                "file mtimes are set by the harness in whole seconds relative to a fixed base; the LOCK file is aged to the base time and every probe time is at least one grace period after the base"]
-REQUIRED_TAGS = ["write-ok", "write-reject", "parse-ok", "parse-corrupt", "parse-badcount", "parse-badname", "parse-badlock", "parse-panic", "parse-v4",
+REQUIRED_TAGS = ["write-ok", "write-reject", "parse-ok", "parse-corrupt", "parse-badcount", "parse-badname", "parse-badlock", "parse-badroot", "parse-v4",
                  "parse-eof", "parse-version", "upd-swap", "upd-mismatch", "upd-missing", "upd-gcgen", "upd-busy", "upd-abort", "prune-notquiet",
                  "prune-unlinked", "prune-kept", "prune-busy", "prune-mchanged", "prune-changed", "gc-update"]
 
@@ -320,7 +320,7 @@ def cq_manifest(m):
 
 
 PCLASS = {"eof": "PErrEOF", "corrupt": "PCorrupt", "version": "PUnknownVersion", "specname": "PBadSpecName", "count": "PBadCount",
-          "lock": "PBadLock", "gcgenhash": "PBadGcGen", "panic": "PPanic"}
+          "lock": "PBadLock", "gcgenhash": "PBadGcGen", "panic": "PPanic", "root": "PPanic"}
 
 
 def cq_presult(p):
@@ -415,7 +415,7 @@ def classify(case, out):
     elif case["kind"] == "parse":
         c = o["parse"]["class"]
         t.append({"ok": "parse-ok", "corrupt": "parse-corrupt", "count": "parse-badcount", "specname": "parse-badname", "lock": "parse-badlock",
-                  "gcgenhash": "parse-badgcgen", "panic": "parse-panic", "eof": "parse-eof", "version": "parse-version"}.get(c, "parse-other"))
+                  "gcgenhash": "parse-badgcgen", "panic": "parse-badroot", "root": "parse-badroot", "eof": "parse-eof", "version": "parse-version"}.get(c, "parse-other"))
         if c == "ok" and bytes(o["parse"]["m"]["vers"]) == b"4":
             t.append("parse-v4")
     else:
